@@ -198,6 +198,32 @@ def _exc_name(e: BaseException) -> str:
     return f"{type(e).__name__}:{str(e)}".replace(" ", "_")
 
 
+_CRIT_WRAPPERS: dict = {}
+
+
+def _criterion_wrapper(v, kind):
+    key = (id(v), kind)
+    hit = _CRIT_WRAPPERS.get(key)
+    if hit is not None and hit[0] is v:
+        return hit[1]
+
+    def w():
+        rec, run = _tls.rec, _tls.run
+        rec.calls.append((kind, "-"))
+        try:
+            run._maybe_fault(kind)
+            out = v()
+        except BaseException as e:
+            setattr(rec, kind.lower(), "!" + _exc_name(e))
+            raise
+        setattr(rec, kind.lower(), fhex(out))
+        return out
+    if len(_CRIT_WRAPPERS) > 20000:
+        _CRIT_WRAPPERS.clear()
+    _CRIT_WRAPPERS[key] = (v, w)
+    return w
+
+
 class Run:
     """one recorded execution of minimize_lbfgsb"""
 
@@ -307,20 +333,11 @@ class Run:
         for name, kind in (("ftarget", "FT"), ("gtol", "GT")):
             v = kw.get(name)
             if callable(v):
-                def mk(v=v, kind=kind):
-                    def w():
-                        rec.calls.append((kind, "-"))
-                        try:
-                            self._maybe_fault(kind)
-                            out = v()
-                        except BaseException as e:
-                            setattr(rec, kind.lower(), "!" + _exc_name(e))
-                            raise
-                        setattr(rec, kind.lower(), fhex(out))
-                        return out
-                    return w
-                kw[name] = mk()
+                # one wrapper object per user callable, whatever the run: a user may hand the same callable object to
+                # several calls of the minimiser (the recorder and the fault plan are those of the run in progress)
+                kw[name] = _criterion_wrapper(v, kind)
         _tls.rec = rec
+        _tls.run = self
         try:
             self.result = minimize_lbfgsb(**kw)
         except BaseException as e:  # noqa
